@@ -475,9 +475,9 @@ class DriverLubaRs232(DriverSerialBase):
             await self.rx_idle.wait()
 
             dali_ints = tx.frame.as_byte_sequence
-            if not len(dali_ints) in (2, 3):
+            if len(tx.frame) not in (16, 24):
                 raise ValueError(
-                    f"Only works with 16 or 24 bit messages, not {8*len(dali_ints)}"
+                    f"Only works with 16 or 24 bit messages, not {len(tx.frame)}"
                 )
             # Determine the message priority - standard commands and DAPC are
             # high priority, others are low
@@ -1329,9 +1329,9 @@ class DriverSCIRS232(DriverSerialBase):
             await self.rx_idle.wait()
 
             dali_ints = tx.frame.as_byte_sequence
-            if not len(dali_ints) in (1, 2, 3):
+            if len(tx.frame) not in (8, 16, 24):
                 raise ValueError(
-                    f"Only works with 8, 16 or 24 bit messages, not {8*len(dali_ints)}"
+                    f"Only works with 8, 16 or 24 bit messages, not {len(tx.frame)}"
                 )
 
             control_byte = (self._device_settings.monitor_enable << 7) | (self._device_settings.identify << 6) | (self._device_settings.echo << 5) | (tx.sendtwice << 4)
